@@ -3,6 +3,7 @@
 -/
 import Kvass.Pins.Coord
 import Kvass.Proofs.CoordKeep
+import Kvass.Proofs.CoordMove
 
 namespace Kvass.Props.C05
 open Kvass Kvass.Coord Kvass.Spec
@@ -85,5 +86,31 @@ theorem C05_removal (swr : Swr) (sc : Sched) (inp : Input) (hnd : NodupKeys inp)
           simp only [bne_iff_ne, ne_eq, hrep]
           exact ⟨⟨⟨hji, hinj⟩, by simpa using hmemj⟩, by simpa using h3j⟩
     · exact Or.inl (Or.inr (by simpa using ha))
+
+/-- **C05 (move step)**: for every schedule, a target newly given to a shard while another in-sync
+    shard reports it (a move, not a first assignment) is in *normal* state on the destination, and an
+    in-sync shard that reports it keeps it and is told - or already reports - that it is *in
+    transfer*: the same cycle marks the source and creates the destination copy.  In particular a
+    target never moves twice within one cycle.  Hypotheses: no negative sizes, distinct keys per
+    report, and a series-with-rate function that does not round a limit down. -/
+theorem C05_moveStep (swr : Swr) (sc : Sched) (inp : Input) (hsz : C04.sizesOK inp = true)
+    (hsw : C05.swrOK swr inp.opt = true) (hnd : NodupKeys inp) :
+    C05.moveStep inp (Obs.ofOutcome (cycle swr sc inp)) = true :=
+  moveStep_cycle swr sc inp (sizesOK_sound inp hsz) (swrOK_sound swr inp.opt hsw) hnd
+
+/-- **C05**: the whole monitored predicate -/
+theorem C05_ok (swr : Swr) (sc : Sched) (inp : Input) (hsz : C04.sizesOK inp = true)
+    (hsw : C05.swrOK swr inp.opt = true) (hnd : NodupKeys inp) :
+    C05.ok inp (Obs.ofOutcome (cycle swr sc inp)) = true := by
+  unfold C05.ok
+  rw [C05_removal swr sc inp hnd, C05_moveStep swr sc inp hsz hsw hnd]
+  rfl
+
+/-- the hypothesis on series-with-rate is needed: with a function that rounds the limit down to 0
+    relief fires on a shard that still has room, and scale-down moves the target straight back -/
+def exSwrBad : Swr := fun _ _ => 0
+example : C05.swrOK exSwrBad ⟨0, 100, 5, 0, true, false⟩ = false := by decide
+/-- … while multiplying by a rate ≥ 1 satisfies it -/
+example : C05.swrOK (fun x r => x * r / 10) ⟨1000, 1000, 5, 0, true, false⟩ = true := by decide
 
 end Kvass.Props.C05
